@@ -17,4 +17,5 @@ open Pyrealb.C17
 #print axioms relative_sign_holds
 #print axioms dateFormat_total_refuted
 #print axioms dateFormat_total_partial
+#print axioms history_independent_holds
 #print axioms source_as_modelled_holds
